@@ -194,13 +194,34 @@ class P(Prop):
         self.lib_check("half_adder", cg.logic.half_adder(), {})
         self.lib_check("full_adder", cg.logic.full_adder(), {})
         for i in range(n):
-            c = gen.circuit(rng, dead=True)
+            c = gen.circuit(rng, dead=True, out_inputs=0.3 if i % 2 else 0.08)
             cj = c_to_json(c)
+            outs, ins, nodes = sorted(c.outputs()), sorted(c.inputs()), sorted(c.graph.nodes)
+            st = {}
+            if outs and ins and rng.random() < 0.7:
+                k, v = rng.choice(outs), rng.choice(ins)
+                if k != v:
+                    st = {k: v}
+            nd = rng.choice(nodes)
+            seq = gen.circuit(rng, n_in=(1, 3), n_gates=(1, 5), dead=False, out_inputs=0.2)
+            gen.add_flops(rng, seq)
+            cyc = gen.circuit(rng, n_in=(1, 3), n_gates=(2, 6), dead=False, cyclic=True)
             for name, f in [("limit_fanin", lambda: cg.tx.limit_fanin(c, rng.choice([2, 3]))),
                             ("limit_fanout", lambda: cg.tx.limit_fanout(c, rng.choice([2, 3]))),
                             ("miter", lambda: cg.tx.miter(c)),
                             ("ternary", lambda: cg.tx.ternary(c)[0]),
-                            ("copy", lambda: c.copy())]:
+                            ("copy", lambda: c.copy()),
+                            ("relabel", lambda: cg.tx.relabel(c, {nd: nd + "_r"})),
+                            ("unroll", lambda: cg.tx.unroll(c, rng.randint(1, 3), st)[0]),
+                            ("sequential_unroll", lambda: cg.tx.sequential_unroll(seq, rng.randint(1, 2), "d", "q", ["clk"],
+                                                                                   rng.random() < 0.5)[0]),
+                            ("acyclic_unroll", lambda: cg.tx.acyclic_unroll(cyc)),
+                            ("insert_registers", lambda: cg.tx.insert_registers(c, rng.randint(1, 2))),
+                            ("sensitization_transform", lambda: cg.tx.sensitization_transform(c, nd)),
+                            ("sensitivity_transform", lambda: cg.tx.sensitivity_transform(c, nd)),
+                            ("verilog_roundtrip", lambda: cg.io.verilog_to_circuit(cg.io.circuit_to_verilog(c), c.name)),
+                            ("verilog_roundtrip_fast", lambda: cg.io.verilog_to_circuit(cg.io.circuit_to_verilog(c), c.name, fast=True)),
+                            ("bench_roundtrip", lambda: cg.io.bench_to_circuit(cg.io.circuit_to_bench(c), c.name))]:
                 o, r = call(f)
                 if o == "ok":
                     self.lib_check(name, r, {"arg": cj})
